@@ -20,6 +20,9 @@ FAULTS = [
     ("barrier", "pwrite64", 1, None), ("read", "pwrite64", 1, None),
 ]
 ERRNOS = ["EIO", "ENOSPC"]
+# a failure that persists (every occurrence from the first on), with the errnos a retry loop would look at
+PERSISTENT = [("barrier", "fsync"), ("write", "pwrite64"), ("read", "pread64"), ("readto", "pread64"), ("write2", "pwrite64")]
+PERSISTENT_ERRNOS = ["EINTR", "EAGAIN", "EIO"]
 PLAIN = [("close-then-barrier", None), ("close-then-write", None), ("close-then-read", None),
          ("write", "/dev/full"), ("barrier", None), ("read", None), ("readto", None), ("write2", None), ("open", None)]
 
@@ -28,7 +31,7 @@ def run_child(ctx, child, scenario, path, n, inject=None):
     log = os.path.join(ctx.scratch, "strace.log")
     cmd = ["strace", "-f", "-o", log, "-e", SYSCALLS]
     if inject:
-        cmd += ["-e", "inject=%s:error=%s:when=%d" % inject]
+        cmd += ["-e", "inject=%s:error=%s:when=%s" % inject]
     cmd += [child, scenario, path, str(n)]
     rc, out, err = vlib.sh(cmd, timeout=120)
     trace = open(log).read() if os.path.exists(log) else ""
@@ -43,6 +46,7 @@ def faults(ctx, child, extra_when=()):
     combos = [(s, sc, w, prior, e) for (s, sc, w, prior) in FAULTS for e in ERRNOS]
     for w in extra_when:
         combos += [(s, sc, w, prior, "EIO") for (s, sc, _, prior) in FAULTS]
+    combos += [(s, sc, "1+", None, e) for (s, sc) in PERSISTENT for e in PERSISTENT_ERRNOS]
     for (scen, sc, when, prior, errno) in combos:
         if os.path.exists(img):
             os.remove(img)
@@ -93,6 +97,7 @@ def run(ctx):
     ctx.cov.update({
         "evaluations": st["histories"] + len(results),
         "distinct_nontrivial": st["nontrivial_histories"] + sum(1 for r in results if r.get("injected")),
+        "fault_errnos": ERRNOS + ["persistent " + e for e in PERSISTENT_ERRNOS],
         "rule": "reopen cases: one backing file per history, prior image absent or of length {0,1,n,4095,4096,4097,n*4096-1,n*4096,n*4096+1,(n+1)*4096,2n*4096,n*2048,3,100} "
                 "with non-zero content, 1-3 open/close rounds with size n, n±1, 2n, n/2, all blocks read after every open, random writes in between "
                 "(non-trivial = an existing image was resized on open or a non-zero block was read back). fault cases: each (scenario, failing syscall, errno, occurrence) "
